@@ -20,7 +20,8 @@ EXTRA = ["#define MAGIC 0x1234\n#define NAME \"hello\"\n#define NEG -5\n", "enum
          "typedef struct _tagged { uint8 a; } tagged_t, tagged2_t;\n", "typedef struct { uint16 q; } untagged_t;\n", "typedef uint64 QW;\ntypedef QW QW2;\n",
          "flag FL : uint16 { FL_A = 1, FL_B = 2 };\n", "struct holder { struct inner_named { uint8 z; } inn; struct { uint8 y; } anon_in; struct inner_arr { uint8 v; } arr[2]; char name[8]; wchar w[2]; uint48 big; };\n",
          "typedef struct { uint16 px; uint16 py; } POINT, COORD, *PPOINT_UNUSED;\n".replace(", *PPOINT_UNUSED", ""),
-         "union un { uint32 a; uint8 b[4]; };\n", "#define FLOAT 1.5\n#define TUP (1, 2)\n"]
+         "union un { uint32 a; uint8 b[4]; };\n", "#define FLOAT 1.5\n#define TUP (1, 2)\n",
+         "struct grid { struct { uint8 x; uint8 y; } cells[2][3]; union { uint8 lo; uint16 w; } cu[2][2]; struct cell_named { uint8 q; } named[3][1][2]; };\n"]
 
 
 def expected_hint_leaf(t):
